@@ -1,5 +1,6 @@
 """Explorer: runs one verification unit (a real function of /repo + its sidecar contract) over all paths."""
 import ast
+import os
 import re as _re
 
 import z3
@@ -32,6 +33,7 @@ class Explorer:
         self.stubs_used = set()
         self.contracts_used = set()
         self.inlined = set()
+        self._inline_stack = []
         self.paths = 0
         self.exits = {"normal": 0, "raise": 0, "cut": 0}
         self._loop_ids = {}
@@ -434,7 +436,37 @@ class Explorer:
             return ref
         raise EngineError(f"instantiation of {modname}.{cname}: class not declared in the sidecar")
 
+    KNOWN_DECORATORS = ("property", "classmethod", "staticmethod", "contextmanager", "dataclass", "abc.abstractmethod", "abstractmethod",
+                        "functools.wraps", "wraps", "typing.no_type_check", "runtime_checkable", "overload", "typing.overload",
+                        "register", "template_tag", "sync_and_async_middleware")
+    MEMO_DECORATORS = ("lru_cache", "functools.lru_cache", "cache", "functools.cache")
+
+    def check_decorators(self, finfo):
+        """decorators either have a stated meaning or the code cannot be read (never silently ignored)"""
+        memo = False
+        for d in finfo.decorators:
+            head = d.split("(")[0]
+            if head in self.MEMO_DECORATORS:
+                memo = True
+            elif head not in self.KNOWN_DECORATORS and not head.endswith(".setter"):
+                raise EngineError(f"decorator @{d} on {finfo.fq} has no stated meaning in the extraction (pyvc.repo.DROPPED)")
+        return memo
+
     def call_function(self, run, finfo, args, kwargs, node):
+        if self.check_decorators(finfo) and not getattr(run, "_in_memo", False):
+            # functools.lru_cache: the result may be the one computed EARLIER for arguments that are equal (== / hash) to
+            # these - which is not the same as identical (SafeString("x") == "x", True == 1)
+            if run.choose(2, None) == 1:
+                def earlier(v):
+                    if isinstance(v, Val) and v.ty is not TNone:
+                        w = Val(v.ty, v.ty.fresh("memo_arg"))
+                        run.wf(w)
+                        run.assume(_memo_equal(run, w, v))
+                        return w
+                    return v
+                args = [earlier(a) for a in args]
+                kwargs = {k: earlier(v) for k, v in kwargs.items()}
+                self.stubs_used.add(f"lru_cache[{finfo.fq}]")
         fq = finfo.fq
         c2 = self.reg.contracts.get(fq)
         if fq in self.c.inline or (c2 is None and fq in self.reg.stubs.get("__inline_ok__", ())):
@@ -448,7 +480,19 @@ class Explorer:
             self.stubs_used.add(fq)
             return st(run, args, kwargs, node)
         if c2 is None:
-            raise EngineError(f"callee {fq} has neither a contract nor a stub nor an inline mark (line {getattr(node, 'lineno', '?')})")
+            # a helper of the package without a contract: its real body is analysed in place (exact, nothing assumed);
+            # loops in it still need invariants, recursion is refused
+            if fq in self._inline_stack:
+                raise EngineError(f"callee {fq} is recursive and has no contract (line {getattr(node, 'lineno', '?')})")
+            self.inlined.add(fq + " (no contract: body analysed in place)")
+            if id(finfo.node) not in self._loop_ids and not getattr(finfo, "_indexed", False):
+                self._index_loops(finfo.node, finfo.qualname)
+                finfo._indexed = True
+            self._inline_stack.append(fq)
+            try:
+                return self.inline_call(run, Closure(finfo.node, None, finfo), args, kwargs, node)
+            finally:
+                self._inline_stack.pop()
         return self.modular_call(run, finfo, c2, args, kwargs, node)
 
     def bind_params(self, run, fnode, args, kwargs, def_frame, finfo):
@@ -566,9 +610,20 @@ class Explorer:
             if which == 0:
                 res = NONE
                 if c2.result is not None and c2.result is not TNone:
-                    res = Val(c2.result, c2.result.fresh(f"ret_{finfo.node.name}"))
+                    if c2.pure and not c2.modifies:
+                        # deterministic, state-free callee: its result is a FUNCTION of its arguments
+                        pn = [p_.arg for p_ in finfo.node.args.posonlyargs + finfo.node.args.args + finfo.node.args.kwonlyargs]
+                        ats = [sf.vars[n_] for n_ in pn]
+                        if not all(isinstance(a_, Val) for a_ in ats):
+                            raise EngineError(f"pure callee {c2.fq} called with a non-symbolic argument")
+                        fn = ops.uf(f"pure_{c2.fq}", *[a_.ty.sort() for a_ in ats], c2.result.sort())
+                        res = Val(c2.result, fn(*[a_.t for a_ in ats]))
+                    else:
+                        res = Val(c2.result, c2.result.fresh(f"ret_{finfo.node.name}"))
                     run.wf(res)
                 sf.vars["result"] = res
+                if c2.call_entry is not None:
+                    c2.call_entry(run, sf)
                 from .interp import SpecCtx
                 if c2.ghost_update is not None:
                     run.spec += 1
@@ -584,7 +639,12 @@ class Explorer:
             cls = outcomes[which]
             cond = c2.raises[cls]
             if cond is not None:
-                run.assume(run.spec_bool(cond, sf))
+                ct = run.spec_bool(cond, sf)
+                reg = (c2.findings or {}).get(f"xpre#{cls}")
+                if reg is not None:
+                    # a recorded known finding of the callee: inside its region the exception DOES escape
+                    ct = z3.Or(ct, run.spec_bool(reg, sf))
+                run.assume(ct)
             for lab, ens in c2.xensures.get(cls, {}).items():
                 run.assume(run.spec_bool(ens, sf))
             raise PyRaise(ExcVal(cls, [], site=f"raised by {site}"))
@@ -662,6 +722,7 @@ class Explorer:
     # ------------------------------------------------------------------ loop frame analysis
     def loop_assigned(self, st, fr):
         names, fields, globs = set(), set(), set()
+        direct = set()       # names that are themselves rebound (as opposed to objects mutated in place through them)
         seen = set()
 
         def field_keys(attr):
@@ -670,6 +731,7 @@ class Explorer:
         def store_target(t, frame):
             if isinstance(t, ast.Name):
                 names.add(t.id)
+                direct.add(t.id)
                 if frame is not None and t.id in frame.globals_decl:
                     globs.add(t.id)
             elif isinstance(t, (ast.Tuple, ast.List)):
@@ -793,6 +855,7 @@ class Explorer:
         for n in list(names):
             if n in self.c.globals and fr.lookup(n) is None:
                 globs.add(n)
+        self.loop_rebound = direct
         return names, fields, globs
 
     # ------------------------------------------------------------------ running the unit
@@ -912,6 +975,7 @@ class Explorer:
 
     def run_unit(self, run):
         c = self.c
+        self.check_decorators(self.finfo)
         fr = self.setup_state(run)
         run.entry_frame = fr
         if not run.prefix:
@@ -960,8 +1024,8 @@ class Explorer:
 
     def exceptional_exit(self, run, fr, exc):
         c = self.c
-        match = None
-        for cls in c.raises:
+        match = exc.tname if exc.tname in c.raises else None      # the most specific clause wins
+        for cls in (c.raises if match is None else ()):
             r = exc_isinstance(exc.tname, cls)
             if r:
                 match = cls
@@ -1021,6 +1085,18 @@ def _source_order(fnode):
     for st in fnode.body:
         rec(st)
     return out
+
+
+def _memo_equal(run, w, v):
+    """Python equality of two call arguments as functools.lru_cache sees it"""
+    if v.ty is TAny:
+        P = TAny.sort()
+        strlike = lambda t: z3.Or(P.is_StrV(t), P.is_SafeV(t))
+        text = lambda t: z3.If(P.is_StrV(t), P.s(t), P.ss(t))
+        num = lambda t: z3.Or(P.is_IntV(t), P.is_BoolV(t))
+        numv = lambda t: z3.If(P.is_IntV(t), P.i(t), z3.If(P.b(t), 1, 0))
+        return z3.Or(w.t == v.t, z3.And(strlike(w.t), strlike(v.t), text(w.t) == text(v.t)), z3.And(num(w.t), num(v.t), numv(w.t) == numv(v.t)))
+    return run.truth(Val(TBool, ops.eq_terms(run, w, v)))
 
 
 def _tyname(v):
